@@ -3,7 +3,7 @@
    fields; the RMSD measures, renumbering, hydrogens and permutations are decided by the
    metamorphic correspondence (every variant scored by the real routines). *)
 From Verif Require Import PyLib ModelTypes Model_contact Spec_contact Model_superpose Spec_superpose
-  Proofs_superpose Proofs_invariance Proofs_rigid_rmsd.
+  Proofs_superpose Proofs_invariance Proofs_rigid_rmsd Proofs_renumber Proofs_hydrogens Proofs_relabel.
 Open Scope Q_scope.
 
 (* every rigid motion (orthogonal matrix, any translation) preserves all squared distances ... *)
@@ -67,8 +67,63 @@ Theorem C11_rotation_candidates_correspond : forall a b, orthogonal a -> orthogo
 Proof. exact orthogonal_mmul. Qed.
 Print Assumptions C11_rotation_candidates_correspond.
 
-(* PARTIAL: renumbering, added hydrogens and record permutations are decided by
-   the metamorphic correspondence, not by theorems. Permutation + fast route + no enforcement: known finding F6. *)
+(* renumbering: adding the same constant to all residue numbers (any strictly increasing renumbering) leaves the contact
+   atoms, the pair map and the residue extension unchanged (they are lists of atom positions), maps the residue pairs
+   key by key, leaves the clash count unchanged and — applied to decoy and reference alike — leaves Fnat unchanged *)
+Theorem C11_renumbering_contacts : forall k c bb eh s allchains c1 c2 ext,
+  get_contact_atoms (closeQ c) bb eh (map (renum (fun n => n + k)%Z) s) allchains c1 c2 ext
+  = get_contact_atoms (closeQ c) bb eh s allchains c1 c2 ext.
+Proof. exact contact_atoms_shifted. Qed.
+Theorem C11_renumbering_residue_pairs : forall g, (forall x y, (x < y)%Z -> (g x < g y)%Z) -> forall c bb eh s c1 c2,
+  get_contact_residue_pairs (closeQ c) bb eh (map (renum g) s) false c1 c2
+  = map_res (mapd g) (get_contact_residue_pairs (closeQ c) bb eh s false c1 c2).
+Proof. exact pairs_renum. Qed.
+Theorem C11_renumbering_clashes : forall k s c1 c2,
+  compute_clashes (map (renum (fun n => n + k)%Z) s) c1 c2 = compute_clashes s c1 c2.
+Proof. exact clashes_shifted. Qed.
+Theorem C11_renumbering_fnat : forall k c decoy ref,
+  compute_fnat_pdb2sql c (map (renum (fun n => n + k)%Z) decoy) (map (renum (fun n => n + k)%Z) ref) = compute_fnat_pdb2sql c decoy ref.
+Proof. exact fnat_shifted. Qed.
+Print Assumptions C11_renumbering_fnat.
+
+(* hydrogens: with hydrogens excluded (the setting of the clash count and of Fnat) the contact atoms, the pair map, the
+   residue pairs, the clash count and Fnat of a structure are those of the structure without its hydrogen atoms
+   (atoms whose name begins with H) — as long as every chain keeps a heavy atom and atom positions are labelled uniquely *)
+Theorem C11_hydrogens_contacts : forall close only_bb s allchains c1 c2,
+  get_chains (strip_H s) = get_chains s ->
+  get_contact_atoms close only_bb true (strip_H s) allchains c1 c2 false
+  = get_contact_atoms close only_bb true s allchains c1 c2 false.
+Proof. exact contact_atoms_ignore_hydrogens. Qed.
+Theorem C11_hydrogens_clashes : forall s c1 c2, get_chains (strip_H s) = get_chains s ->
+  compute_clashes (strip_H s) c1 c2 = compute_clashes s c1 c2.
+Proof. exact clashes_ignore_hydrogens. Qed.
+Theorem C11_hydrogens_fnat : forall c decoy ref,
+  chains_keep_heavy decoy -> chains_keep_heavy ref -> NoDup (map idx decoy) -> NoDup (map idx ref) ->
+  compute_fnat_pdb2sql c (strip_H decoy) (strip_H ref) = compute_fnat_pdb2sql c decoy ref.
+Proof. exact fnat_ignores_hydrogens. Qed.
+Print Assumptions C11_hydrogens_fnat.
+
+(* the position labels (row numbers) are immaterial: relabelling by any strictly increasing map leaves residue pairs,
+   clash count and Fnat unchanged — so ADDING HYDROGEN RECORDS ANYWHERE in the files (the heavy atoms keep their order,
+   their row numbers shift) changes neither the clash count nor Fnat *)
+Theorem C11_row_labels_immaterial_fnat : forall g g' c decoy ref,
+  (forall x y, (x < y)%Z -> (g x < g y)%Z) -> (forall x y, (x < y)%Z -> (g' x < g' y)%Z) ->
+  compute_fnat_pdb2sql c (map (relabel g) decoy) (map (relabel g') ref) = compute_fnat_pdb2sql c decoy ref.
+Proof. exact fnat_relabelled. Qed.
+Theorem C11_added_hydrogens_clashes : forall g s sH c1 c2,
+  (forall x y, (x < y)%Z -> (g x < g y)%Z) -> strip_H sH = map (relabel g) s -> get_chains (strip_H sH) = get_chains sH ->
+  compute_clashes sH c1 c2 = compute_clashes s c1 c2.
+Proof. exact clashes_with_added_hydrogens. Qed.
+Theorem C11_added_hydrogens_fnat : forall g g' c decoy ref decoyH refH,
+  (forall x y, (x < y)%Z -> (g x < g y)%Z) -> (forall x y, (x < y)%Z -> (g' x < g' y)%Z) ->
+  strip_H decoyH = map (relabel g) decoy -> strip_H refH = map (relabel g') ref ->
+  chains_keep_heavy decoyH -> chains_keep_heavy refH -> NoDup (map idx decoyH) -> NoDup (map idx refH) ->
+  compute_fnat_pdb2sql c decoyH refH = compute_fnat_pdb2sql c decoy ref.
+Proof. exact fnat_with_added_hydrogens. Qed.
+Print Assumptions C11_added_hydrogens_fnat.
+
+(* PARTIAL: the RMSD values under renumbering and added hydrogens, and record permutations, are decided by the
+   metamorphic correspondence, not by theorems. Permutation + fast route + no enforcement: known finding F6. *)
 Example C11_example :
   let m : mat := ((0, -1, 0), (1, 0, 0), (0, 0, 1)) in
   orthogonal m /\
